@@ -143,7 +143,17 @@ func c03Prepop(kind int) *ref.AF {
 }
 
 // init id = afLen*8 + prepopulation kind
+// c03InitNewAF is the init id of the packet behind packet.NewAdaptationField().
+const c03InitNewAF = 184 * 8
+
 func c03New(id int) *c03State {
+	if id == c03InitNewAF {
+		// the library's own constructor: null PID, adaptation field only, length 183, nothing present
+		s := &c03State{afLen: 183, m: c03Prepop(0), payload: []byte{}}
+		s.p = packet.Packet(*packet.NewAdaptationField())
+		s.hdr = ref.ParseHeader(s.p[:4])
+		return s
+	}
 	afLen, kind := id/8, id%8
 	s := &c03State{afLen: afLen, m: c03Prepop(kind)}
 	s.hdr = ref.Header{Sync: 0x47, PUSI: afLen%2 == 1, PID: 0x100 + afLen, AFC: 3, CC: byte(afLen & 0xF)}
@@ -576,6 +586,9 @@ func c03BFS(name, rule string, inits func(r *engine.Run) []int, depth func(r *en
 		Key:   func(s *c03State) string { return string(s.p[:]) },
 		Describe: func(init int, hist []int) any {
 			names := []string{fmt.Sprintf("init: adaptation_field_length=%d prepopulated=%d", init/8, init%8)}
+			if init == c03InitNewAF {
+				names[0] = "init: packet.NewAdaptationField()"
+			}
 			for _, h := range hist {
 				names = append(names, c03Ops[h].name)
 			}
@@ -609,8 +622,8 @@ func init() {
 					return 2
 				}, nil),
 			c03BFS("boundary-lengths-deep",
-				"same alphabet and oracle, BFS to depth 4 (quick) / to closure or the state cap (thorough) on the boundary lengths {1,2,7,8,9,13..17,19..22,30,100,181,182,183} from the empty and 4 pre-populated fields",
-				func(r *engine.Run) []int { return c03Inits(boundary, []int{0, 1, 2, 3, 4}) },
+				"same alphabet and oracle, BFS to depth 4 (quick) / to closure or the state cap (thorough) on the boundary lengths {1,2,7,8,9,13..17,19..22,30,100,181,182,183} from the empty and 4 pre-populated fields, and from the packet behind packet.NewAdaptationField()",
+				func(r *engine.Run) []int { return append(c03Inits(boundary, []int{0, 1, 2, 3, 4}), c03InitNewAF) },
 				func(r *engine.Run) int {
 					if r.Thorough() {
 						return 12
